@@ -1,7 +1,11 @@
 package checks
 
 import (
+	"encoding/json"
 	"fmt"
+	"github.com/gebn/bmc"
+	"github.com/gebn/bmc/pkg/ipmi"
+	"reflect"
 	"strings"
 
 	"verif/env"
@@ -15,6 +19,18 @@ func init() {
 	register(&Check{ID: "C11", Run: runC11, Shards: 16, MinOutcomes: 3})
 	histAlphabets["queue"] = queueAlphabet
 	histJudges["C11"] = c11Judge
+	// a group-extension command whose defining body code is 00h (PICMG) and whose
+	// command number (01h) also exists in other network functions
+	opPICMG = addOp(histOp{Name: "PICMG.GetAddressInfo", NetFn: 0x2c, Cmd: 0x01, Data: []byte{0x00, 0x00},
+		New: func() ipmi.Command {
+			return &rawCmd{op: ipmi.Operation{Function: ipmi.NetworkFunctionGroupReq, Body: ipmi.BodyCode(0x00), Command: 0x01}, body: []byte{0x00}}
+		}})
+	Replayers["c11long"] = func(raw json.RawMessage) (string, bool) {
+		var c c11LongCase
+		json.Unmarshal(raw, &c)
+		k, msg := c11Long(c)
+		return fmt.Sprintf("%s %s", k, msg), k != ""
+	}
 }
 
 // queueAlphabet models what a UDP socket can do to replies: delay them past
@@ -151,6 +167,89 @@ func queueAlphabet(cfg histCfg, w *World) []histAnswer {
 	}
 }
 
+var opPICMG int
+
+// c11LongCase: a long-lived connection or session. The reply to command Hold
+// is duplicated; the copy stays somewhere in the network and arrives Gap
+// commands later, ahead of that command's own reply.
+type c11LongCase struct {
+	InSession bool `json:"in_session"`
+	Hold      int  `json:"hold"`
+	Gap       int  `json:"gap"`
+}
+
+func c11Long(c c11LongCase) (string, string) {
+	cfg := histConfig(ref.Suite{Auth: 1, Integ: 1, Conf: 1})
+	w := newWorld(cfg, nil, nil)
+	var conn bmc.Connection = w.Conn
+	if c.InSession {
+		s, err := w.Conn.NewV2Session(w.Ctx, &bmc.V2SessionOpts{SessionOpts: bmc.SessionOpts{Username: "c11", Password: cfg.Password, MaxPrivilegeLevel: ipmi.PrivilegeLevelAdministrator}, CipherSuites: []ipmi.CipherSuite{ipmi.CipherSuite3}})
+		if err != nil {
+			return "C11/long/harness", err.Error()
+		}
+		conn = s
+	}
+	cmds := []func() ipmi.Command{
+		func() ipmi.Command { return &ipmi.GetSystemGUIDCmd{} },
+		func() ipmi.Command {
+			return &ipmi.GetChannelAuthenticationCapabilitiesCmd{Req: ipmi.GetChannelAuthenticationCapabilitiesReq{Channel: ipmi.ChannelPresentInterface, MaxPrivilegeLevel: ipmi.PrivilegeLevelAdministrator, ExtendedData: true}}
+		},
+		func() ipmi.Command { return &ipmi.GetDeviceIDCmd{} },
+		func() ipmi.Command { return &ipmi.GetChassisStatusCmd{} },
+	}
+	which := func(i int) int {
+		if i == c.Hold {
+			return 0
+		}
+		return 1 + i%3
+	}
+	solo := map[int]string{}
+	op, sends := -1, 0
+	var stash []byte
+	w.T.Menu = func(t *env.Transport, req []byte) []env.Answer {
+		sends++
+		cur := op
+		return []env.Answer{{Name: "long", Apply: func(t *env.Transport, rx *ref.Rx) {
+			b := t.BMC.Honest(rx)
+			if cur == c.Hold+c.Gap && stash != nil {
+				t.Enqueue(stash, "stray:duplicate-from-long-ago")
+				stash = nil
+			}
+			if b != nil {
+				t.Enqueue(b, "honest")
+				if cur == c.Hold && stash == nil && sends > 0 {
+					stash = append([]byte{}, b...)
+				}
+			}
+		}}}
+	}
+	n := c.Hold + c.Gap + 3
+	for i := 0; i < n; i++ {
+		op = i
+		w.T.BeginOp()
+		cmd := cmds[which(i)]()
+		var code ipmi.CompletionCode
+		var err error
+		if p := guard(func() { code, err = conn.SendCommand(w.Ctx, cmd) }); p != "" {
+			return "C11/long/panic", p
+		}
+		got := fmt.Sprintf("%#02x %v %s", byte(code), err, canonNamed(reflect.ValueOf(cmd.Response())))
+		want, ok := solo[which(i)]
+		if !ok {
+			// the same command's result at the first undisturbed use
+			solo[which(i)] = got
+			continue
+		}
+		if err == nil && got != want {
+			return "C11/long/result-from-another-commands-reply", fmt.Sprintf("command %d (%s) on a connection where the reply to command %d (%s) was duplicated and the copy arrived %d commands later: result %s, the BMC's answer is %s", i, cmd.Name(), c.Hold, cmds[0]().Name(), c.Gap, got, want)
+		}
+		if len(w.T.Log) > 4000 {
+			return "C11/long/runaway", "more than 4000 transmissions"
+		}
+	}
+	return "", ""
+}
+
 func c11Judge(cfg histCfg, o *histObs) []finding {
 	var out []finding
 	add := func(key, f string, a ...any) { out = append(out, finding{"C11/" + key, fmt.Sprintf(f, a...)}) }
@@ -208,7 +307,7 @@ func c11Cause(o *histObs, pos int) string {
 
 func runC11(r *rep.R) {
 	r.SetRule("a case is one execution of a history [A, B, C] of pairwise distinct commands (all ordered pairs A,B over an 8-command alphabet, C fixed per pair) outside and inside a session, with <= k socket events from {reply delayed past the timeout, reply duplicated, reply held until after the next reply (reordering), a stray valid reply of another command ahead of the real one, reply lost}; oracle: every nil-error result equals the BMC's answer to that command (taken from an undisturbed run of the same history)")
-	alphabet := []int{opGetDeviceID, opChassisStatus, opGetSDR, opSetPriv, opPowerReading, opSensorReading, opSystemGUID, opAuthCaps, opDCMISensorInfoCmd, opDCMICapsCmd, opChassisControl}
+	alphabet := []int{opGetDeviceID, opChassisStatus, opGetSDR, opSetPriv, opPowerReading, opSensorReading, opSystemGUID, opAuthCaps, opDCMISensorInfoCmd, opDCMICapsCmd, opChassisControl, opPICMG}
 	var idx int64
 	k := 2
 	for _, inSess := range []bool{false, true} {
@@ -272,6 +371,30 @@ func runC11(r *rep.R) {
 				ops = append(ops, opClose)
 			}
 			histConform(r, "C11", histCfg{Suite: ref.Suite{Auth: 1, Integ: 1, Conf: 1}, InSession: inSess, Ops: ops, Horizon: 2, Alphabet: "queue"}, 2, &idx)
+		}
+	}
+	// long-lived connections: a copy of an old reply arrives 1..130 commands later
+	for _, inSess := range []bool{false, true} {
+		for _, hold := range []int{0, 1, 5} {
+			for gap := 1; gap <= 130; gap++ {
+				if !thorough(r) && gap > 3 && gap < 62 || !thorough(r) && gap > 66 && gap < 126 {
+					continue
+				}
+				idx++
+				if !r.Mine(idx) {
+					continue
+				}
+				c := c11LongCase{InSession: inSess, Hold: hold, Gap: gap}
+				k, msg := c11Long(c)
+				r.Eval(rep.H("long", fmt.Sprint(c)), true)
+				r.Trace()
+				if k != "" {
+					r.Outcome("violation")
+					r.Violate(k, msg, "c11long", c, nil)
+				} else {
+					r.Outcome("long:results-from-own-replies")
+				}
+			}
 		}
 	}
 	r.Bound("deviations", k)
